@@ -1190,7 +1190,7 @@ def run_case(case, stats, exclude_known=True):
         logging.disable(logging.NOTSET)
 
 
-N_CONFIGS = {'quick': 240, 'thorough': 24000}
+N_CONFIGS = {'quick': 240, 'thorough': 20000}
 
 
 def _minimal_case_hash():
